@@ -858,6 +858,10 @@ def complex_cases(rng, tier):
     add("array", "[x, 1j] real scalar entry", (lambda m, a: m.array([a, 1j]) ** 2), [2.0], [0], False)
     add("array", "[x_vec, complex vec]", (lambda m, a: m.array([a, onp.array([1j, 2.0 - 1j, 0.5j])]) * (1.0 + 1.0j)), [iarr(rng, (3,))], [0], True)
     add("array", "nested [[x0, 1j], [2, x1]]", (lambda m, a: m.array([[a[0], 1j], [2.0, a[1]]]) * (2.0 - 1.0j)), [iarr(rng, (2,))], [0], True)
+    add("array", "array(x, dtype=complex) of a real x", (lambda m, a: m.array(a, dtype=complex) * (1.0 + 2.0j)), [iarr(rng, (3,))], [0], True)
+    add("array", "array(x, dtype=complex, ndmin=2) of a real x", (lambda m, a: m.array(a, dtype=complex, ndmin=2) * (1.0 + 2.0j)), [iarr(rng, (3,))], [0], True)
+    add("astype", "real x .astype(complex)", (lambda m, a: a.astype(complex) * (1.0 + 2.0j)), [iarr(rng, (3,))], [0], True)
+    add("multiply", "real x times complex constant", (lambda m, a: a * (1.0 + 2.0j)), [iarr(rng, (3,))], [0], True)
     add("linspace", "real start, complex stop", (lambda m, a: m.linspace(a, 1j, 3)), [2.0], [0], True)
     add("linspace", "complex start, real stop", (lambda m, a: m.linspace(1.0 - 2.0j, a, 4)), [3.0], [0], False)
     add("stack", "real piece among complex constants", (lambda m, a: m.stack([a, onp.array([1j, 2j, 3j])]) * (1.0 + 2.0j)), [iarr(rng, (3,))], [0], True)
